@@ -58,7 +58,9 @@ def _run_once(overlay_dir, units, jobs=8, log_path=None, extra_timeout=120):
     out_json = os.path.join(overlay_dir, "kani-out.json")
     if os.path.exists(out_json):
         os.remove(out_json)
-    tmo = max(u["timeout"] for u in units)
+    # per-harness limit: the largest annotated limit of the group, never below 15 minutes, plus 50 %
+    # (the annotations were measured on an idle machine; under load a harness takes up to twice as long)
+    tmo = int(max(900, max(u["timeout"] for u in units)) * 1.5)
     cmd = ["cargo", "kani"] + FEATURES + KANI_FLAGS + [
         "--harness-timeout", f"{tmo}s", "--exact", "-j", str(jobs),
         "--output-format", "terse", "--export-json", out_json]
